@@ -117,6 +117,8 @@ class DeadlockOracle(O.Monitor):
             self.activity["multi_server_in_knot"] += 1
         if len(self.prev) == 1:
             self.activity["self_deadlock"] += 1
+        if self.last_t == 0:
+            self.activity["deadlock_at_zero"] = 1
         td = self.last_t
         got = Q.times_to_deadlock
         if set(got) != set(self.first):
@@ -206,7 +208,21 @@ def subchecks(tier):
          "cc_after": 0.15, "zero_service": 0.2, "server_priority": 0.1}
     prof = S.Profile(ALLOWED, weights=w, required=("capacity",), numeric="mixed", max_nodes=3, max_classes=2, plans=("until_deadlock",),
                      horizon=(5.0, 10.0), budget=700, caps=(0, 0, 1, 1, 2), load="heavy", stay=0.6)
+    # a deadlock at clock time exactly 0: first customer at t = 0, zero service time, no waiting room, routed back to its own node
+    wz = dict(w, zero_service=1.0, self_loops=1.0, batching=0.5)
+    instant = S.Profile(ALLOWED, weights=wz, required=("capacity", "zero_service", "self_loops"), numeric="grid", max_nodes=2, max_classes=2,
+                        plans=("until_deadlock",), horizon=(5.0, 10.0), budget=400, caps=(0, 0, 0, 1), load="heavy", stay=0.8, zero_p=0.45, zero_first=0.6, max_c=2)
+    # ten and more nodes: vertex labels of the wait-for digraph such as 'Server 1 at Node 1' and 'Server 1 at Node 10' differ only by a suffix
+    wm = {"capacity": 1.0, "self_loops": 0.5, "priorities": 0.2, "discipline": 0.2, "routing_objects": 0.3}
+    many = S.Profile(list(wm), weights=wm, required=("capacity",), numeric="mixed", min_nodes=10, max_nodes=12, max_classes=2, plans=("until_deadlock",),
+                     horizon=(5.0, 10.0), budget=900, caps=(0, 0, 1), load="heavy", stay=0.7, max_c=2)
     return [
+        system_subcheck("instant_deadlock", instant, lambda spec: [DeadlockOracle()], lambda a, spec, res: a.get("deadlocks", 0) >= 1,
+                        classes=lambda a, spec, res: classes(a, spec, res) + (["deadlock_at_time_zero"] if a.get("deadlock_at_zero") else []),
+                        spec_filter=post_filter, n={"quick": 2400, "thorough": 15000},
+                        rule="first arrivals at t = 0, zero service times, no waiting room, self-loops: deadlocks at clock time exactly 0; same oracle"),
+        system_subcheck("many_nodes", many, lambda spec: [DeadlockOracle()], nontrivial, classes=classes, spec_filter=post_filter,
+                        n={"quick": 1800, "thorough": 12000}, rule="10-12 nodes (vertex names of nodes 1 and 10-12 share prefixes); same oracle"),
         system_subcheck("system", prof, lambda spec: [DeadlockOracle()], nontrivial, classes=classes, spec_filter=post_filter,
                         n={"quick": 7200, "thorough": 40000}, rule="simulate_until_deadlock vs structural fixpoint oracle after every event"),
         SubCheck("detect_deadlock", config_execute, strategy=config_case(), n={"quick": 18000, "thorough": 80000}, kind="unit", is_spec=False,
